@@ -189,8 +189,8 @@ def heap_snapshot(c, roots):
             snap[id(o)] = (name, o, {k: _shallow(v) for k, v in d.items()})
             for k, v in d.items():
                 stack.append((f"{name}.{k}", v))
-    mods = {}
-    for mname, mod in c.repo.mods.items():
+    mods = {("__loaded__", ""): tuple(sorted(c.repo.mods))}
+    for mname, mod in list(c.repo.mods.items()):
         for k, v in mod.__dict__.items():
             if type(v) in (dict, list, set) and not k.startswith("__"):
                 mods[(mname, k)] = _shallow(v)
@@ -198,7 +198,24 @@ def heap_snapshot(c, roots):
                 for ck, cv in v.__dict__.items():
                     if type(cv) in (dict, list, set):
                         mods[(mname, f"{k}.{ck}")] = _shallow(cv)
+                    else:
+                        _default_containers(mods, mname, f"{k}.{ck}", cv)
+            else:
+                _default_containers(mods, mname, k, v)
     return snap, mods
+
+
+def _default_containers(mods, mname, qual, fn):
+    """mutable default arguments of the module's functions / methods: they live as long as the module does"""
+    fn = getattr(fn, "__func__", fn)
+    if type(fn).__name__ != "function" or getattr(fn, "__module__", None) != mname:
+        return
+    for i, dv in enumerate(fn.__defaults__ or ()):
+        if type(dv) in (dict, list, set):
+            mods[(mname, f"{qual}.__defaults__[{i}]")] = _shallow(dv)
+    for dk, dv in (fn.__kwdefaults__ or {}).items():
+        if type(dv) in (dict, list, set):
+            mods[(mname, f"{qual}.__kwdefaults__[{dk}]")] = _shallow(dv)
 
 
 def heap_diff(c, snapshot, memo_fields=()):
@@ -213,10 +230,14 @@ def heap_diff(c, snapshot, memo_fields=()):
                 sites.append(f"{type(o).__name__}:{name}.{k}")
     _, mods_now = heap_snapshot(c, [])
     for key, before in mods.items():
+        if key[0] == "__loaded__":
+            continue
         if mods_now.get(key) != before:
             sites.append(f"module:{key[0]}.{key[1]}")
+    loaded_before = mods.get(("__loaded__", ""), ())
     for key in mods_now:
-        if key not in mods:
+        # a container that did not exist before -- unless its module was only loaded during the call (lazy import)
+        if key not in mods and key[0] in loaded_before:
             sites.append(f"module:{key[0]}.{key[1]} (new)")
     for s in getattr(c, "stores", []):
         if s[0] == "seq" and any(s[1] is v for _, _o, _b in snap.values() for v in _o.__dict__.values()):
